@@ -152,6 +152,30 @@ Qed.
 Lemma wellformed_spec : forall es, wellformed_from [] es = true <-> LayerWellFormed es.
 Proof. intros es. rewrite wellformed_from_spec. unfold LayerWellFormed. simpl. tauto. Qed.
 
+Lemma links_inside_from_spec : forall es seen, links_inside_from seen es = true <->
+  (forall pre x post, es = pre ++ x :: post -> e_kind x = KLink ->
+     exists t, In t (seen ++ pre) /\ e_path t = split_slash (e_link x) /\ is_dir t = false).
+Proof.
+  induction es as [| y r IH]; intros seen; simpl.
+  - split; auto. intros _ pre x post H. destruct pre; discriminate.
+  - rewrite andb_true_iff, IH. split.
+    + intros [H1 H2] pre x post E Hk. destruct pre as [| z pre]; simpl in E; inversion E; subst.
+      * rewrite Hk in H1. apply existsb_exists in H1. destruct H1 as [t [Ht Hc]]. apply andb_true_iff in Hc. destruct Hc as [Hc1 Hc2].
+        apply negb_true_iff in Hc1. apply path_eqb_spec in Hc2. exists t. rewrite app_nil_r. auto.
+      * destruct (H2 pre x post eq_refl Hk) as [t [Ht R]]. exists t. split; auto.
+        simpl in Ht. apply in_or_app. destruct Ht as [<- | Ht]; [right; left; reflexivity|].
+        apply in_app_or in Ht. destruct Ht; [left | right; right]; assumption.
+    + intros H. split.
+      * destruct (e_kind y) eqn:K; auto. destruct (H [] y r eq_refl K) as [t [Ht [Pt Dt]]]. rewrite app_nil_r in Ht.
+        apply existsb_exists. exists t. split; auto. rewrite Dt. simpl. apply path_eqb_spec. exact Pt.
+      * intros pre x post E Hk. destruct (H (y :: pre) x post ltac:(simpl; rewrite E; reflexivity) Hk) as [t [Ht R]].
+        exists t. split; auto. apply in_app_or in Ht. simpl.
+        destruct Ht as [Ht | [<- | Ht]]; [right; apply in_or_app; left | left | right; apply in_or_app; right]; auto.
+Qed.
+
+Lemma links_inside_spec : forall es, links_inside_from [] es = true <-> LayerLinksInside es.
+Proof. intros es. rewrite links_inside_from_spec. unfold LayerLinksInside. simpl. tauto. Qed.
+
 Theorem layers_tags_decides : forall gs own single layers,
   layers_tags gs own single layers = [] <-> LayersOk gs own single layers.
 Proof.
@@ -178,5 +202,7 @@ Proof.
     - intros H i Hi. apply (list_eqb_spec entry_eqb entry_eqb_spec). apply H. apply in_seqn. exact Hi. }
   assert (C : forallb (wellformed_from []) layers = true <-> Forall LayerWellFormed layers).
   { rewrite forallb_forall, Forall_forall. split; intros H l Hl; apply wellformed_spec; apply H; exact Hl. }
-  rewrite A, B, C. tauto.
+  assert (D : forallb (links_inside_from []) layers = true <-> Forall LayerLinksInside layers).
+  { rewrite forallb_forall, Forall_forall. split; intros H l Hl; apply links_inside_spec; apply H; exact Hl. }
+  rewrite A, B, C, D. tauto.
 Qed.
